@@ -73,6 +73,27 @@ def eval_bool(e, env, atoms=None):
         if all(t in known for t in tnames):
             return isinstance(v, tuple(known[t] for t in tnames))
         return UNKNOWN
+    if isinstance(e, ast.Call) and isinstance(e.func, ast.Name) and e.func.id in ("any", "all") and e.func.id not in env and len(e.args) == 1 and not e.keywords and isinstance(e.args[0], (ast.GeneratorExp, ast.ListComp)) and len(e.args[0].generators) == 1 and isinstance(e.args[0].generators[0].target, ast.Name):
+        g_ = e.args[0].generators[0]
+        rows = value_of(g_.iter, env)
+        if isinstance(rows, list):
+            res = e.func.id == "all"
+            unknown = False
+            for row in rows:
+                env2 = dict(env)
+                env2[g_.target.id] = row
+                conds = [eval_bool(c, env2, atoms) for c in g_.ifs]
+                if any(c is False for c in conds):
+                    continue
+                v = eval_bool(e.args[0].elt, env2, atoms)
+                if v is UNKNOWN or any(c is UNKNOWN for c in conds):
+                    unknown = True
+                    continue
+                if e.func.id == "any" and v:
+                    return True
+                if e.func.id == "all" and not v:
+                    return False
+            return UNKNOWN if unknown else res
     if isinstance(e, ast.Name):
         v = value_of(e, env)
         return UNKNOWN if v is _NOVAL else bool(v)
@@ -82,6 +103,11 @@ def eval_bool(e, env, atoms=None):
         applied = _apply_kept(e, env)
         if applied is not e:
             return eval_bool(applied, env, atoms)
+    if isinstance(e, (ast.Call, ast.Subscript)) and not (isinstance(e, ast.Call) and isinstance(e.func, ast.Name)):
+        # a lookup whose value is known (`options.get('strict')` on a known dict): its truth
+        v = value_of(e, env)
+        if v is not _NOVAL and v is not _RAISES and not isinstance(v, _Ast):
+            return bool(v)
     if isinstance(e, ast.Call) and HOOK.get("call") is not None:
         return HOOK["call"](e, env, atoms)
     return UNKNOWN
